@@ -203,6 +203,27 @@ pub fn run(tier: Tier, seed: u64) -> i32 {
                             }
                         }
                     }
+                    // out-of-range rounds asked FIRST on fresh verifiers (nothing decoded yet): still no coordinates, no panic
+                    for first in [255u8, 254, 128, count, count.saturating_add(1)] {
+                        if first < count {
+                            continue;
+                        }
+                        let mut v3 = MatrixCardVerifier::new(count, h, sd, w, key);
+                        match catch(|| v3.get_matrix_coordinates(first)) {
+                            Ok(None) => {}
+                            other => {
+                                viol(&report, "round-out-of-range-has-coordinates", json!({"w": w, "h": h, "count": count, "seed": sd, "round": first, "asked": "first, on a fresh verifier"}), format!("round {first} >= count {count}, asked before any other round, yields {other:?}"));
+                                return;
+                            }
+                        }
+                        // and the in-range rounds afterwards are unaffected
+                        if let Some(c0) = coords.first() {
+                            if catch(|| v3.get_matrix_coordinates(0)).ok().flatten() != Some(*c0) {
+                                viol(&report, "round-answer-depends-on-the-order-of-questions", json!({"w": w, "h": h, "count": count, "seed": sd, "round": 0, "after_out_of_range_round": first}), format!("after asking the out-of-range round {first}, round 0 no longer yields {c0:?}"));
+                                return;
+                            }
+                        }
+                    }
                     // the same rounds asked last-to-first, twice each, on a fresh verifier: same coordinates (the answer for a
                     // round does not depend on which rounds were asked before)
                     {
